@@ -21,7 +21,7 @@ RULE = ("files from the SpikeGLX writer model: {3A,3B1,3B2,NP2.1,NP2.4,NPultra,n
 ASSUMPTIONS = ["pairs of two index arrays are not generated (NumPy pairs them pointwise, the reader gathers orthogonally; the property "
                "names neither)", "values agree to float32 rounding of 'float32(raw) x factor': |got-exp| <= 2^-22 |exp|; sync exact",
                "mtscomp (dependency) is observed only through the reader"]
-REQUIRED = {"getitem_calls": 300, "read_calls": 50, "values_compared": 300, "geometry_rows_checked": 20, "cbin_files": 3, "negstep_slices": 10, "lf_band_files": 10, "inconsistent_metadata_files": 10, "uuid_named_with_sibling_band": 10, "shank_files_read": 20, "numpy_integer_selectors": 100}
+REQUIRED = {"getitem_calls": 300, "read_calls": 50, "values_compared": 300, "geometry_rows_checked": 20, "cbin_files": 3, "negstep_slices": 10, "lf_band_files": 10, "inconsistent_metadata_files": 10, "uuid_named_with_sibling_band": 10, "shank_files_read": 20, "numpy_integer_selectors": 100, "inplace_compressed_same_object": 20}
 CASE_TIMEOUT = 60.0
 RTOL = 2.0 ** -22
 
@@ -242,6 +242,31 @@ def run_case(case):
         res.check(np.array_equal(np.array(sr.sample2volts), s2v_before), "read:conversion-changed-by-reading", f"{label0}: sample2volts changed while reading")
     except Exception as e:
         res.exception("read:exception", e, f"{label0} repeat read")
+    # -------- the same reader OBJECT after it compressed its own file in place (round 20): it was asked for sorted or on-disk order when it was made, and
+    #          goes on describing the same recording in that order - geometry, values, every entry point
+    if not cbin and case.get("_i", 0) % 3 == 0:
+        lab2 = f"{label0} same reader object after compress_file(keep_original=False)"
+        try:
+            sr.compress_file(keep_original=False, chunk_duration=float(rng.choice([0.002, 0.005, 0.011])))
+            res.count("inplace_compressed_same_object")
+            if geom_before is not None:
+                g2 = sr.geometry
+                same = g2 is not None and set(g2) == set(geom_before) and all(np.array_equal(g2[k], geom_before[k]) for k in geom_before)
+                res.check(same, "geometry:changed-by-inplace-compression", f"{lab2}: the geometry is no longer the one the reader had (order asked for: sort={sort})")
+            res.check(np.array_equal(np.array(sr.sample2volts), s2v_before), "read:conversion-changed-by-inplace-compression", f"{lab2}: sample2volts changed")
+            res.check(tuple(sr.shape) == (ns, rec.nc), "reader:shape", f"{lab2}: shape {sr.shape}")
+            for q in range(6):
+                nsel = S.rand_slice(rng, ns) if q % 2 else int(rng.integers(-ns, ns))
+                if isinstance(nsel, slice) and (nsel.step or 1) < 0:
+                    nsel = slice(None)
+                csel, clab = S.channel_selector(rng, rec.nc, fancy_ok=True)
+                got = sr[nsel, csel] if q % 3 else sr.read(nsel=nsel, csel=csel, sync=False)
+                cm = syncmask[csel] if not isinstance(csel, (int, np.integer)) else None
+                if isinstance(cm, (bool, np.bool_)):
+                    cm = None
+                compare(res, got, expected(cal, nsel, csel), cm, f"{lab2} sr[{S.describe(nsel)}, {S.describe(csel)}]", "read:after-inplace-compression")
+        except Exception as e:
+            res.exception("read:after-inplace-compression:exception", e, lab2)
     sr.close()
     # -------- per-shank files of a four-shank probe (as the library's own converter writes them: the whole probe's site table plus the shank the file
     #          holds), for site selections that leave some shanks unused: column i of what the reader returns is the electrode its geometry names
